@@ -48,6 +48,22 @@ CHECKS = {
    technique="property-based differential testing of generated programs around a #[ds(trrel_uf)] relation against the reference evaluator with an explicit reflexive transitive closure",
    text="As C10 for the trrel_uf provider, restricted by three open findings (KF-13, KF-14a, KF-14b, each with a committed failing replay): the tagged relation is filled from inputs only and, in the ternary form, read with the key bound; within that fragment every reader must see exactly the reflexive transitive closure, without panics.",
    note="Trusted base as for C01 plus the reference closure. The excluded shapes (recursive feeding; key-free reads of the ternary form) are counted in the evidence and are exercised by the committed replays of the open findings."),
+ "C16": dict(engine="libprops", level="exploration", design="4/C16",
+   technique="property-based testing of algebraic laws: exhaustive enumeration of all triples over small carriers of every shipped lattice type, random generation beyond",
+   text="The lattice laws, their agreement with PartialOrd and the truthfulness of the 'changed' result of join_mut / meet_mut are checked on all triples of about 40 small carrier instantiations (every shipped Lattice implementation and nested compositions) and on randomly generated values of wider types.",
+   note="Trusted base: PartialEq / Debug of the types; the law checker itself (engine/libprops/src/c16.rs)."),
+ "C17": dict(engine="libprops", level="exploration", design="4/C17",
+   technique="property-based testing of the aggregators against their mathematical definitions on generated multisets and percentiles, including boundary parameters",
+   text="Generated multisets (empty, singleton, duplicates, sorted, large) and percentile parameters (end points, rank boundaries) are fed to min, max, sum, count (with and without exact size hints), mean, percentile and not; results must equal definitions computed on a sorted copy and nothing may panic.",
+   note="Trusted base: the reference definitions in engine/libprops/src/c17.rs."),
+ "C18": dict(engine="libprops", level="exploration", design="4/C18",
+   technique="model-based (stateful) property testing of TrRelUnionFind and UnionFind: exhaustive short histories and random long ones against Warshall's closure / a naive partition",
+   text="All add histories up to a length bound over 3 and 4 elements and random histories over 8 elements are applied to TrRelUnionFind and to a Warshall closure; after every operation every public query and both internal consistency checks are compared / run. UnionFind histories (including the unsafe id-level API within its precondition) are compared with a naive partition.",
+   note="Trusted base: the reference closure and partition in engine/libprops/src/c18.rs."),
+ "C19": dict(engine="libprops", level="exploration", design="4/C19",
+   technique="model-based (stateful) property testing of every index type against abstract multimaps through insert / merge / freeze histories, plus concurrent insert rounds with schedule perturbation",
+   text="Operation histories (insert through both paths, insert-if-absent, merge with either side larger, freeze cycles, lookups, iteration) are applied to each of the eight index types and to a model triple of multimaps; concurrent rounds check that all racing inserts are retained and that exactly one insert-if-absent racer wins.",
+   note="Trusted base: the model in engine/libprops/src/c19.rs; interleavings of the concurrent rounds are sampled."),
  "C13": dict(engine="progfuzz", level="exploration", design="4/C13",
    technique="stateful (model-based) property testing: generated run()/push histories over generated programs against the model 'fresh run on everything pushed so far'",
    text="Operation sequences run() / push(tuple into any plain relation) over generated programs (serial and ascent_par!) are interpreted against the compiled program and against a model (the multiset of all pushed facts); after every run() the relations must equal the reference evaluator's result on the model, and consecutive runs must change nothing. Histories shrink as one proptest value.",
@@ -95,6 +111,8 @@ def main():
                    baseline_off_cmd="cd /repo && cargo test --workspace --no-fail-fast --offline",
                    source_commits=hook_ids, add_only=True),
         engines=[
+            dict(name="libprops", path="engine/libprops", serves_properties=[p for p in ids if CHECKS.get(p, {}).get("engine") == "libprops"],
+                 kind_free_text="in-process proptest (fixed seed) and exhaustive enumeration on the library types of ascent_base, ascent::aggregators, ascent::internal and ascent-byods-rels"),
             dict(name="progfuzz", path="engine/{core,gen,glue,runner}", serves_properties=[p for p in ids if CHECKS.get(p, {}).get("engine") == "progfuzz"],
                  kind_free_text="generated Ascent programs compiled in batches by the real macros, run on proptest-generated inputs, compared with an independent reference evaluator; proptest shrinking of inputs; self-contained replay files"),
         ],
